@@ -1,13 +1,94 @@
 (* Model.Geometry: spatial key codec, packed block index and chunk arithmetic (C18, used by C17).
-   The arithmetic itself is GENERATED from the Go source (Gen/Arith.v, by harness/cmd/gen/gen_arith.go):
+   The definitions r_... below are the text harness/cmd/gen/gen_arith.go generates from the Go
+   source; the generated file (Gen/Arith.v, regenerated on every run) is compared with them in
+   Proofs/Geometry.v (source_tie, by reflexivity), so an edit of the Go functions breaks that
+   obligation while the run models (which must always build) keep using this copy:
      dvid/point.go   Point3d.ToZYXBytes, Point3d.FromZYXBytes, Point3d.Chunk
      datatype/common/labels/index.go  EncodeBlockIndex, DecodeBlockIndex, BlockIndexToIZYXString
    This file only names the generated functions and adds what the translator does not produce:
    the zero-divisor panic of Chunk, byte-string comparison, the (z,y,x) order.
    Coordinates are Z; int32/uint64 wrap-around is explicit (Base.WrapZ).  No proofs here. *)
-From DV Require Import Base.Prelude Base.WrapZ Gen.Arith.
+From DV Require Import Base.Prelude Base.WrapZ.
 From Coq Require Import String.
 Local Open Scope Z_scope.
+
+(* datatype/common/labels: func EncodeBlockIndex *)
+Definition r_EncodeBlockIndex (v_x : Z) (v_y : Z) (v_z : Z) :=
+  let v_zyx := 0 in
+  let '(v_zyx, v_z) := if (v_z <? 0) then (let v_zyx := (Z.lor v_zyx 1048576) in let v_z := (wS 32 (- v_z)) in (v_zyx, v_z)) else ( (v_zyx, v_z)) in
+  let v_zyx := (Z.lor v_zyx (wU 64 (Z.land v_z 1048575))) in
+  let v_zyx := (wU 64 (Z.shiftl v_zyx 21)) in
+  let '(v_zyx, v_y) := if (v_y <? 0) then (let v_zyx := (Z.lor v_zyx 1048576) in let v_y := (wS 32 (- v_y)) in (v_zyx, v_y)) else ( (v_zyx, v_y)) in
+  let v_zyx := (Z.lor v_zyx (wU 64 (Z.land v_y 1048575))) in
+  let v_zyx := (wU 64 (Z.shiftl v_zyx 21)) in
+  let '(v_zyx, v_x) := if (v_x <? 0) then (let v_zyx := (Z.lor v_zyx 1048576) in let v_x := (wS 32 (- v_x)) in (v_zyx, v_x)) else ( (v_zyx, v_x)) in
+  let v_zyx := (Z.lor v_zyx (wU 64 (Z.land v_x 1048575))) in
+  v_zyx.
+
+(* datatype/common/labels: func DecodeBlockIndex *)
+Definition r_DecodeBlockIndex (v_zyx : Z) :=
+  let v_x := 0 in
+  let v_y := 0 in
+  let v_z := 0 in
+  let v_x := (wS 32 (Z.land v_zyx 1048575)) in
+  let v_x := if (negb ((Z.land v_zyx 1048576) =? 0)) then (let v_x := (wS 32 (- v_x)) in v_x) else ( v_x) in
+  let v_zyx := (Z.shiftr v_zyx 21) in
+  let v_y := (wS 32 (Z.land v_zyx 1048575)) in
+  let v_y := if (negb ((Z.land v_zyx 1048576) =? 0)) then (let v_y := (wS 32 (- v_y)) in v_y) else ( v_y) in
+  let v_zyx := (Z.shiftr v_zyx 21) in
+  let v_z := (wS 32 (Z.land v_zyx 1048575)) in
+  let v_z := if (negb ((Z.land v_zyx 1048576) =? 0)) then (let v_z := (wS 32 (- v_z)) in v_z) else ( v_z) in
+  (v_x, v_y, v_z).
+
+(* datatype/common/labels: func BlockIndexToIZYXString *)
+Definition r_BlockIndexToIZYXString (v_zyx : Z) :=
+  let v_x := 0 in let v_y := 0 in let v_z := 0 in
+  let v_x := (wS 32 (Z.land v_zyx 1048575)) in
+  let v_x := if (negb ((Z.land v_zyx 1048576) =? 0)) then (let v_x := (wS 32 (- v_x)) in v_x) else ( v_x) in
+  let v_zyx := (Z.shiftr v_zyx 21) in
+  let v_y := (wS 32 (Z.land v_zyx 1048575)) in
+  let v_y := if (negb ((Z.land v_zyx 1048576) =? 0)) then (let v_y := (wS 32 (- v_y)) in v_y) else ( v_y) in
+  let v_zyx := (Z.shiftr v_zyx 21) in
+  let v_z := (wS 32 (Z.land v_zyx 1048575)) in
+  let v_z := if (negb ((Z.land v_zyx 1048576) =? 0)) then (let v_z := (wS 32 (- v_z)) in v_z) else ( v_z) in
+  (v_x, v_y, v_z).
+Definition r_BlockIndexToIZYXString_via : string := "dvid.ChunkPoint3d.ToIZYXString"%string.
+
+(* dvid: func Point3d.ToZYXBytes *)
+Definition r_Point3d_ToZYXBytes (v_p_0 : Z) (v_p_1 : Z) (v_p_2 : Z) :=
+  let v_buf := bmake 12 in
+  match bput_be32 v_buf 0 4 (wU 32 (wS 64 ((wS 64 v_p_2) - (-2147483648)))) with None => Panic | Some v_buf =>
+  match bput_be32 v_buf 4 8 (wU 32 (wS 64 ((wS 64 v_p_1) - (-2147483648)))) with None => Panic | Some v_buf =>
+  match bput_be32 v_buf 8 12 (wU 32 (wS 64 ((wS 64 v_p_0) - (-2147483648)))) with None => Panic | Some v_buf =>
+  Ok v_buf end end end.
+
+(* dvid: func Point3d.FromZYXBytes *)
+Definition r_Point3d_FromZYXBytes (v_zyx : list Z) :=
+  let v_p_0 := 0 in
+  let v_p_1 := 0 in
+  let v_p_2 := 0 in
+  if (negb ((Z.of_nat (List.length v_zyx)) =? 12)) then Err else
+  match bget_be32 v_zyx 0 4 with None => Panic | Some t_1 =>
+  let v_z := (wS 32 (wS 64 ((wS 64 t_1) + (-2147483648)))) in
+  match bget_be32 v_zyx 4 8 with None => Panic | Some t_2 =>
+  let v_y := (wS 32 (wS 64 ((wS 64 t_2) + (-2147483648)))) in
+  match bget_be32 v_zyx 8 12 with None => Panic | Some t_3 =>
+  let v_x := (wS 32 (wS 64 ((wS 64 t_3) + (-2147483648)))) in
+  let '(v_p_0, v_p_1, v_p_2) := (v_x, v_y, v_z) in
+  Ok (v_p_0, v_p_1, v_p_2) end end end.
+
+(* dvid: func Point3d.Chunk *)
+Definition r_Point3d_Chunk (v_p_0 : Z) (v_p_1 : Z) (v_p_2 : Z) (v_size_0 : Z) (v_size_1 : Z) (v_size_2 : Z) :=
+  let v_c0 := 0 in let v_c1 := 0 in let v_c2 := 0 in
+  let v_s0 := v_size_0 in
+  let v_s1 := v_size_1 in
+  let v_s2 := v_size_2 in
+  let v_c0 := if (v_p_0 <? 0) then (let v_c0 := (wS 32 (Z.quot (wS 32 ((wS 32 (v_p_0 - v_s0)) + 1)) v_s0)) in v_c0) else (let v_c0 := (wS 32 (Z.quot v_p_0 v_s0)) in v_c0) in
+  let v_c1 := if (v_p_1 <? 0) then (let v_c1 := (wS 32 (Z.quot (wS 32 ((wS 32 (v_p_1 - v_s1)) + 1)) v_s1)) in v_c1) else (let v_c1 := (wS 32 (Z.quot v_p_1 v_s1)) in v_c1) in
+  let v_c2 := if (v_p_2 <? 0) then (let v_c2 := (wS 32 (Z.quot (wS 32 ((wS 32 (v_p_2 - v_s2)) + 1)) v_s2)) in v_c2) else (let v_c2 := (wS 32 (Z.quot v_p_2 v_s2)) in v_c2) in
+  (v_c0, v_c1, v_c2).
+
+
 
 Definition pt : Type := (Z * Z * Z)%type.   (* (x, y, z), as dvid.Point3d{x,y,z} *)
 Definition px (p : pt) : Z := fst (fst p).
@@ -18,10 +99,10 @@ Definition pt_is32b (p : pt) : bool := is32b (px p) && is32b (py p) && is32b (pz
 Definition pt_eqb (p q : pt) : bool := (px p =? px q) && (py p =? py q) && (pz p =? pz q).
 
 (* dvid/point.go:738 Point3d.ToZYXBytes == dvid/index.go:298 IndexZYX.Bytes == IZYXString(...) *)
-Definition to_zyx (p : pt) : res (list Z) := g_Point3d_ToZYXBytes (px p) (py p) (pz p).
+Definition to_zyx (p : pt) : res (list Z) := r_Point3d_ToZYXBytes (px p) (py p) (pz p).
 (* dvid/point.go:747 Point3d.FromZYXBytes == dvid/index.go:304 IndexZYX.IndexFromBytes
    == IZYXString.IndexZYX / Unpack / ToChunkPoint3d *)
-Definition from_zyx (b : list Z) : res pt := g_Point3d_FromZYXBytes b.
+Definition from_zyx (b : list Z) : res pt := r_Point3d_FromZYXBytes b.
 
 (* Go's bytes.Compare / string comparison on byte strings *)
 Fixpoint bytes_cmp (a b : list Z) : comparison :=
@@ -40,12 +121,12 @@ Definition zyx_cmp (p q : pt) : comparison :=
   end.
 
 (* datatype/common/labels/index.go:19, :53, :73 *)
-Definition encode_block_index (p : pt) : Z := g_EncodeBlockIndex (px p) (py p) (pz p).
-Definition decode_block_index (w : Z) : pt := g_DecodeBlockIndex w.
-Definition block_index_to_izyx (w : Z) : res (list Z) := to_zyx (g_BlockIndexToIZYXString w).
+Definition encode_block_index (p : pt) : Z := r_EncodeBlockIndex (px p) (py p) (pz p).
+Definition decode_block_index (w : Z) : pt := r_DecodeBlockIndex w.
+Definition block_index_to_izyx (w : Z) : res (list Z) := to_zyx (r_BlockIndexToIZYXString w).
 (* the callee named in the Go source must be the key encoder modelled by to_zyx *)
 Definition block_index_to_izyx_via_ok : bool :=
-  String.eqb g_BlockIndexToIZYXString_via "dvid.ChunkPoint3d.ToIZYXString".
+  String.eqb r_BlockIndexToIZYXString_via "dvid.ChunkPoint3d.ToIZYXString".
 
 Definition in_blockindex_range (c : Z) : Prop := - 2 ^ 20 < c < 2 ^ 20.
 Definition in_blockindex_rangeb (c : Z) : bool := (- 2 ^ 20 <? c) && (c <? 2 ^ 20).
@@ -53,7 +134,7 @@ Definition in_blockindex_rangeb (c : Z) : bool := (- 2 ^ 20 <? c) && (c <? 2 ^ 2
 (* dvid/point.go:599 Point3d.Chunk: integer division by a zero block size is a Go run-time panic *)
 Definition chunk_pt (p size : pt) : res pt :=
   if (px size =? 0) || (py size =? 0) || (pz size =? 0) then Panic
-  else Ok (g_Point3d_Chunk (px p) (py p) (pz p) (px size) (py size) (pz size)).
+  else Ok (r_Point3d_Chunk (px p) (py p) (pz p) (px size) (py size) (pz size)).
 
 (* one coordinate of Chunk, for the run-length model *)
 Definition chunk1 (p s : Z) : Z :=
